@@ -418,6 +418,26 @@ class Driver:
                 wl = mod.body[1]
                 wl.body = wl.body[:-1] + list(st.body)
                 return self.block(mod.body, [s], func)
+            # for T in range(len(SEQ)) / np.arange(len(SEQ)) / range(N):   T = 0 ; while T < N: BODY ; T += 1
+            it = st.iter
+            if (not st.orelse and isinstance(st.target, ast.Name) and isinstance(it, ast.Call) and len(it.args) == 1 and not it.keywords
+                    and ((isinstance(it.func, ast.Name) and it.func.id == "range") or (isinstance(it.func, ast.Attribute) and it.func.attr == "arange"))
+                    and not any(isinstance(n, ast.Name) and n.id == st.target.id and isinstance(n.ctx, ast.Store) for b in st.body for n in ast.walk(b))
+                    and not any(isinstance(n, ast.Continue) for b in st.body for n in ast.walk(b))):
+                self._forvar = getattr(self, "_forvar", 0) + 1
+                nv = "__forn%d" % self._forvar
+                tv = st.target.id
+                mod = ast.parse("%s = 0\n%s = 0\nwhile %s < %s:\n    pass\n    %s += 1\n" % (nv, tv, tv, nv, tv))
+                mod.body[0].value = it.args[0]
+                for n in ast.walk(mod):
+                    if not hasattr(n, "lineno") or n is mod.body[0].value:
+                        pass
+                for n in ast.walk(mod):
+                    if n is not it.args[0] and not any(n is x for x in ast.walk(it.args[0])):
+                        ast.copy_location(n, st)
+                wl = mod.body[2]
+                wl.body = list(st.body) + [wl.body[1]]
+                return self.block(mod.body, [s], func)
             raise AnalysisError("%s:%d unsupported for loop" % (func.qualname, st.lineno))
         raise AnalysisError("%s:%d unsupported statement %s" % (func.qualname, st.lineno, type(st).__name__))
 
@@ -681,6 +701,10 @@ class Driver:
         return self._seq(node.elts, s, func)
 
     def x_List(self, node, s, func):
+        if not node.elts:
+            o = ListObj("list@%d" % node.lineno)       # a fresh list the function may fill (tracked per path)
+            s.heap["L%d" % id(o)] = o
+            return [(s, o)]
         return self._seq(node.elts, s, func)
 
     def _seq(self, elts, s, func):
@@ -1143,7 +1167,7 @@ def _flush_loop(st, state):
         if isinstance(n, ast.Call) and isinstance(n.func, ast.Attribute) and n.func.attr in ("step", "append", "add_res", "set", "copy", "extend"):
             # appending to an untracked local list (the data dump built element by element) is no effect on the tracked state
             r = n.func.value
-            if n.func.attr in ("append", "extend") and isinstance(r, ast.Name) and isinstance(state.env.get(r.id), (list, Opq)):
+            if n.func.attr in ("append", "extend") and isinstance(r, ast.Name) and (isinstance(state.env.get(r.id), (list, Opq)) or (isinstance(state.env.get(r.id), ListObj) and state.env.get(r.id).name != "results")):
                 continue
             return False
         if isinstance(n, ast.Attribute) and isinstance(n.ctx, ast.Store):
